@@ -48,14 +48,27 @@ SAMPLE_FILES = [
 ]
 
 
+_RUN = {"text": ""}
+
+
 def cfg(mech, maxops, maxexp, r1, s1, r2, s2, io, invs=(), view=None, init="Init", nxt="Next"):
+    """Configuration + the generated root module EncodeRun (TLC's cfg syntax has no tuples: the sets of
+    face-size sequences are definitions of the root module, substituted for the constants)."""
+    _RUN["text"] = (
+        "---- MODULE EncodeRun ----\nEXTENDS %s\nRunShapes1 == %s\nRunShapes2 == %s\n====\n"
+        % ("TraceEncode" if init == "TraceInit" else "EncodeLazy", s1, s2)
+    )
     return (
-        "INIT %s\nNEXT %s\nCONSTANTS\n MechName = \"%s\"\n MaxOps = %d\n MaxExports = %d\n Routes1 = %s\n Shapes1 = %s\n Routes2 = %s\n Shapes2 = %s\n WithIO = %s\n"
-        % (init, nxt, mech, maxops, maxexp, r1, s1, r2, s2, "TRUE" if io else "FALSE")
+        "INIT %s\nNEXT %s\nCONSTANTS\n MechName = \"%s\"\n MaxOps = %d\n MaxExports = %d\n Routes1 = %s\n Shapes1 <- RunShapes1\n Routes2 = %s\n Shapes2 <- RunShapes2\n WithIO = %s\n"
+        % (init, nxt, mech, maxops, maxexp, r1, r2, "TRUE" if io else "FALSE")
         + "".join("INVARIANT %s\n" % i for i in invs)
         + ("VIEW %s\n" % view if view else "")
         + "CHECK_DEADLOCK FALSE\n"
     )
+
+
+def M():
+    return {"EncodeRun": _RUN["text"]}
 
 
 # ----------------------------------------------------------------------------- generation
@@ -169,7 +182,7 @@ def parse_cex(out):
 
 def cex_classes(ctx, mech, maxops, r1, s1, r2, s2, io, what):
     """Violating histories of EncodeLazy(mech), one class per (clause, detail, format, route, size mix, length)."""
-    r = ctx.tlc_ok("EncodeLazy", cfg(mech, maxops, 2, r1, s1, r2, s2, io, ["EmitCex"], "CexView"), what=what, workers=8, timeout=3000)
+    r = ctx.tlc_ok("EncodeRun", cfg(mech, maxops, 2, r1, s1, r2, s2, io, ["EmitCex"], "CexView"), extra_modules=M(), what=what, workers=8, timeout=3000)
     allc = parse_cex(r.out)
     classes = {}
     for c in allc:
@@ -259,10 +272,11 @@ def validate(ctx, behs, results, tag):
     if not first_of:
         return {}, []
     r = ctx.tlc_ok(
-        "TraceEncode",
+        "EncodeRun",
         cfg("intended", 0, 64, "{}", "{}", "{}", "{}", True, invs=["Report"], init="TraceInit", nxt="TraceNext"),
         what="validate %d recorded traces (%d calls) against EncodeLazy(Mech_intended) [%s]" % (len(first_of), n, tag),
         env={"TRACE_FILE": tpath, "INDEX_FILE": ipath},
+        extra_modules=M(),
         workers=8,
         count=False,
         timeout=3000,
@@ -416,8 +430,14 @@ def binding_demo(ctx, behs, results, viol):
             n += 1
             if n >= 3:
                 break
-    if len({k for k, _ in want.values()}) < len(kinds):
-        raise Machinery("binding demonstration: no accepted trace to corrupt for %s" % sorted(set(kinds) - {k for k, _ in want.values()}))
+    lacking = sorted(set(kinds) - {k for k, _ in want.values()})
+    if lacking:
+        if not viol:
+            raise Machinery("binding demonstration: no accepted trace to corrupt for %s" % lacking)
+        # on a tree that violates the property there may be no accepted trace of some kind: not a harness matter
+        ctx.note("binding_demo_kinds_without_accepted_trace", lacking)
+    if not want:
+        return
     v2, _ = validate(ctx, cb, cr, "corrupt")
     ctx.traces -= len(cb)
     missed = []
@@ -439,13 +459,13 @@ def run(ctx):
 
     # 1. the specification on its own: Mech_intended satisfies every clause (bounded, exhaustive)
     if thorough:
-        ctx.tlc_ok("EncodeLazy", cfg("intended", 4, 2, ALL_ROUTES, SH_ALL, ALL_ROUTES, "{<<4,4>>, <<3,5>>}", True, INVS, "NoHist"),
-                   what="Mech_intended: all clauses, 200 scenarios, histories <= 4 calls", workers=8, timeout=3000)
-        ctx.tlc_ok("EncodeLazy", cfg("intended", 6, 3, '{"topo","fv"}', "{<<3,4,3,5>>}", '{"topoE"}', SH_G2, True, INVS, "NoHist"),
-                   what="Mech_intended: all clauses, 2 scenarios, histories <= 6 calls, 3 exports", workers=8, timeout=3000)
+        ctx.tlc_ok("EncodeRun", cfg("intended", 4, 2, ALL_ROUTES, SH_ALL, ALL_ROUTES, "{<<4,4>>, <<3,5>>}", True, INVS, "NoHist"),
+                   extra_modules=M(), what="Mech_intended: all clauses, 200 scenarios, histories <= 4 calls", workers=8, timeout=3000)
+        ctx.tlc_ok("EncodeRun", cfg("intended", 6, 3, '{"topo","fv"}', "{<<3,4,3,5>>}", '{"topoE"}', SH_G2, True, INVS, "NoHist"),
+                   extra_modules=M(), what="Mech_intended: all clauses, 2 scenarios, histories <= 6 calls, 3 exports", workers=8, timeout=3000)
     else:
-        ctx.tlc_ok("EncodeLazy", cfg("intended", 4, 2, ALL_ROUTES, SH_ALL_T if thorough else SH_ALL, '{"topoE"}', SH_G2, True, INVS, "NoHist"),
-                   what="Mech_intended: all clauses, 20 scenarios (5 routes x 4 size sequences), histories <= 4 calls", workers=8, timeout=1500)
+        ctx.tlc_ok("EncodeRun", cfg("intended", 4, 2, ALL_ROUTES, SH_ALL_T if thorough else SH_ALL, '{"topoE"}', SH_G2, True, INVS, "NoHist"),
+                   extra_modules=M(), what="Mech_intended: all clauses, 20 scenarios (5 routes x 4 size sequences), histories <= 4 calls", workers=8, timeout=1500)
 
     # 2. Mech_observed: TLC produces the violating histories (directed tests)
     per = 2 if thorough else 1
@@ -488,8 +508,8 @@ def run(ctx):
     if thorough:
         for v in ["before_c07_repairs", "only_alias", "only_helper", "only_coords", "only_scrip", "only_exofill", "only_exostart", "only_exoreader", "only_scripreader", "only_scripkeep", "only_filefill"]:
             invs = [i for i in INVS if i != "FunctionOfSource"]
-            r = ctx.tlc("EncodeLazy", cfg(v, 4, 2, ALL_ROUTES, SH_ALL_T if thorough else SH_ALL, '{"topoE"}', SH_G2, True, invs, "NoHist"),
-                        what="model mutant %s must break a clause" % v, workers=4, count=False, timeout=900)
+            r = ctx.tlc("EncodeRun", cfg(v, 4, 2, ALL_ROUTES, SH_ALL_T if thorough else SH_ALL, '{"topoE"}', SH_G2, True, invs, "NoHist"),
+                        extra_modules=M(), what="model mutant %s must break a clause" % v, workers=4, count=False, timeout=900)
             broke[v] = r.violated
             if not r.violated:
                 raise Machinery("model mutant %s is not distinguished by any invariant" % v)
@@ -504,8 +524,8 @@ def run(ctx):
         plans = [(4, SH_ALL, '{"topoE"}', SH_G2), (3, SH_ALL_T, '{"topo","fv"}', "{<<3,5>>}")]
     n_edges = n_nodes = 0
     for depth, s1, r2, s2 in plans:
-        ctx.tlc_ok("EncodeLazy", cfg("intended", depth, 2, ALL_ROUTES, s1, r2, s2, False, [], "GenView"),
-                   what="call graph to depth %d for the transition cover" % depth, workers=1, dump_dot=dot, timeout=3000)
+        ctx.tlc_ok("EncodeRun", cfg("intended", depth, 2, ALL_ROUTES, s1, r2, s2, False, [], "GenView"),
+                   extra_modules=M(), what="call graph to depth %d for the transition cover" % depth, workers=1, dump_dot=dot, timeout=3000)
         bs, ne, nn = transition_cover(dot)
         os.remove(dot)
         n_edges += ne
@@ -562,12 +582,17 @@ def run(ctx):
     warm = {"t": 0, "desc": {}, "entries": {"g1": catalog.entries(name="cuboctahedron", rot=1, cut=0)[0]}, "routes": {"g1": "topo"}, "work": ctx.work,
             "calls": [["Open", "g1"]] + [["Access", "g1", a] for a in ATTRS] + [["ToXarray", "g1", f] for f in ("ugrid", "exodus", "scrip")]}
     w = x_c07.replay_behaviour(warm)
-    if w["skipped"]:
+    if w["skipped"] and not w.get("impl_raised"):
         raise Machinery("warm-up behaviour failed: %s" % w["skipped"])
     both = pmap(x_c07.replay_behaviour, behs + big)
     results, results_big = both[: len(behs)], both[len(behs) :]
     skipped = {}
     for b, r in list(zip(behs, results)) + list(zip(big, results_big)):
+        if r.get("impl_raised"):
+            g = r["impl_raised"].split("(")[1].split(")")[0]
+            ctx.violation("%s@Open" % beh_id(b), "SourceOpens", detail=r["impl_raised"],
+                          sig={"route": b["desc"].get(g, {}).get("route", ""), "at": r["impl_raised"].split("(")[0]},
+                          replay={"meshes": b["names"], "routes": b["routes"], "calls": b["calls"]})
         if r["skipped"]:
             if r.get("machinery"):
                 raise Machinery("replay of behaviour %s failed in the harness: %s" % (beh_id(b), r["skipped"]))
